@@ -745,3 +745,14 @@ Theorem go_dbp_header_stricter :
 Proof.
   exists [64; 2; 1; 2]. eexists. split; vm_compute; reflexivity.
 Qed.
+
+(** the unrestricted statement does not hold (Go's header checks) *)
+Definition go_dbp_accepts_spec_full : Prop :=
+  forall k b r, (k = 32 \/ k = 64) -> wf_bytes b -> DeltaBP.dec k b = Some r -> go_dbp_dec k b = GOk r.
+
+Theorem go_dbp_accepts_spec_full_refuted : ~ go_dbp_accepts_spec_full.
+Proof.
+  intros H.
+  assert (Hw : wf_bytes [64; 2; 1; 2]) by (repeat constructor; lia).
+  specialize (H 32 [64; 2; 1; 2] _ (or_introl eq_refl) Hw eq_refl). vm_compute in H. discriminate.
+Qed.
